@@ -6,6 +6,6 @@ CONSTANTS
   Deep = FALSE
   Dump = TRUE
   OverwriteOnReturn = FALSE
-INVARIANTS UnionHolds NonEmptySets Inert DumpBehaviour
+INVARIANTS UnionHolds NonEmptySets Inert FoldIsMachine DumpBehaviour
 PROPERTY Terminates
 CHECK_DEADLOCK FALSE
